@@ -37,10 +37,13 @@ type c33Case struct {
 	Ops []c33Op `json:"ops"`
 	// Concurrent issues the events of each link from its own goroutine (free-running variant).
 	Concurrent bool `json:"concurrent"`
+	// OtherFirst: another live link request for the same target peer, with a different source peer, is already
+	// watched by the controller when the tested request arrives
+	OtherFirst bool `json:"other_first,omitempty"`
 }
 
 func genC33(t *rapid.T) c33Case {
-	c := c33Case{Concurrent: rapid.IntRange(0, 5).Draw(t, "conc") == 0}
+	c := c33Case{Concurrent: rapid.IntRange(0, 5).Draw(t, "conc") == 0, OtherFirst: rapid.IntRange(0, 2).Draw(t, "otherfirst") == 0}
 	n := rapid.IntRange(1, 10).Draw(t, "n")
 	for i := 0; i < n; i++ {
 		c.Ops = append(c.Ops, c33Op{
@@ -66,6 +69,14 @@ func checkC33(c c33Case) (o vstat.Outcome) {
 	if err != nil {
 		o.Discard = true
 		return
+	}
+	if c.OtherFirst {
+		other := fakes.NewInstance(link.NewEstablishLinkWithPeer(gen.PeerID(2), gen.PeerID(1)))
+		if _, err := ctrl.HandleDirective(context.Background(), other); err != nil {
+			o.V = vstat.Viol("handle-directive-error", "%v", err)
+			return
+		}
+		o.Classes = append(o.Classes, "second-request-for-the-same-target")
 	}
 	inst := fakes.NewInstance(link.NewEstablishLinkWithPeer("", gen.PeerID(1)))
 	if _, err := ctrl.HandleDirective(context.Background(), inst); err != nil {
